@@ -52,6 +52,11 @@ ARGS = {
                       ("sent(\"ab\\0\".as_ptr());", "\"ab\\0\"", "0"), ("sent(\"\\0\".as_ptr());", "\"\\0\"", "0"), ("sent(\" a \\n\".as_ptr());", "\" a \\n\"", "0")], "{p}.dig()", ref=True),
     "opt_u64": A("Option<u64>", [("", "None", "0"), ("", "Some(0u64)", "0"), ("", "Some(u64::MAX)", "0")], "{p}.dig()"),
     "opt_ref": A("Option<&u64>", [("", "None", "0"), ("sent(&FIVE as *const u64);", "Some(&FIVE)", "0")], "{p}.map(dig_ref).dig()", ref=True),
+    # Option of a borrowed string / slice: Some of an empty borrow is not None
+    "opt_str": A("Option<&str>", [("", "None", "0"), ("sent(\"\".as_ptr());", "Some(\"\")", "0"), ("sent(\"a\".as_ptr());", "Some(\"a\")", "0"), ("sent(\"\\0\".as_ptr());", "Some(\"\\0\")", "0")],
+                 "{p}.map(|v| v.dig()).dig()", ref=True),
+    "opt_slice": A("Option<&[u8]>", [("", "None", "0"), ("sent(BYTES0.as_ptr());", "Some(&BYTES0[..])", "0"), ("sent(BYTES3.as_ptr());", "Some(&BYTES3[..])", "0")],
+                   "{p}.map(|v| v.dig()).dig()", ref=True),
     # Option of a raw pointer has no niche: it must be lowered to COption like any other payload
     "opt_ptr": A("Option<*const u8>", [("", "None", "0"), ("sent(BYTES3.as_ptr());", "Some(BYTES3.as_ptr())", "0"), ("sent(::core::ptr::null::<u8>());", "Some(::core::ptr::null::<u8>())", "0")], "{p}.dig()"),
     # the same shapes spelled with a module path
@@ -337,7 +342,7 @@ def emit_trait(t):
 
 # spelling variants of shapes that are already in the grammar: swept per receiver and per position in both tiers,
 # left out of the thorough cross products
-LIGHT_ARGS = {"opt_q", "res_q"}
+LIGHT_ARGS = {"opt_q", "res_q", "opt_str", "opt_slice"}
 LIGHT_RETS = {"opt_q", "res_q", "int_q", "res_ie"}
 # only meaningful under a trait-level attribute: never enumerated on their own
 TRAIT_LEVEL_RETS = {"int_tl", "int_tl_alias"}
